@@ -93,3 +93,12 @@ func (h HapsimHandler) Delete(obj client.Object) bool {
 	h.h.Delete(context.Background(), e, h.q)
 	return true
 }
+
+// SimReconcileHook observes the parameter of every reconciliation request (C13, L2).
+var SimReconcileHook func(fullsync bool)
+
+func simReconcileNote(fullsync bool) {
+	if SimReconcileHook != nil {
+		SimReconcileHook(fullsync)
+	}
+}
